@@ -207,7 +207,11 @@ int main(int argc, char** argv) {
       pthread_t th; worker_t w; memset(&w, 0, sizeof(w)); w.t = next_thread_id++; w.heapid = next_heap_id++;
       pthread_create(&th, NULL, scen_bound_worker, &w); pthread_join(th, NULL);
       for (int s_ = 0; s_ < MAXSLOTS; s_++) if (slots[s_].p && slots[s_].heap != hps[0].id) op_free_slot(s_, FR_free);
-      do_collect(1); vf_clock_advance(500); do_collect(1);
+      do_collect(1);
+#if defined(VF_SHIM)
+      vf_clock_advance(500);
+#endif
+      do_collect(1);
       mi_arena_t* arena = mi_arena_from_index(mi_arena_id_index(ars[ar].aid));
       size_t nblocks = arena->block_count;
       vf_logf("{\"e\":\"refill\",\"blocks\":%zu,\"inuse\":[", nblocks);
